@@ -92,7 +92,7 @@ Section WithOracle.
     match find (fun p => str_eqb (fst p) s) (o_fparse o) with Some p => snd p | None => None end.
   Definition lext (c : N) : N := c.
 
-  Definition m_out (row : type_row) v := apply_out fstr (r_out row) v.
+  Definition m_out (row : type_row) v := coerce_upnp fstr row v.
   Definition m_in (row : type_row) s := apply_in fparse lext (r_in row) s.
 
   Fixpoint run_ops (d : decl) (st : stored) (ops : list vop) : list (res unit * pyval * bool) :=
